@@ -210,13 +210,30 @@ fn check_sequence<F: Family>(pkts: Vec<F::Packet>, big: bool, t: &mut Tape, ctx:
     Ok(())
 }
 
+/// nums = [type a, type b, content seed]: every ordered pair of packet types back to back (twice: a b a b)
+fn pair_sequence<F: Family>(input: &Input, ctx: &mut Ctx) -> CaseResult {
+    let n = input.nums();
+    let (a, b, seed) = (n[0] as usize, n[1] as usize, n[2]);
+    let tape: Vec<u16> = (0..80u64).map(|i| ((seed.wrapping_add(i).wrapping_mul(0x9E37_79B9_7F4A_7C15)) >> 41) as u16).collect();
+    let mut t = Tape::new(if seed == 0 { &[] } else { &tape });
+    let pa = F::gen_of_type(&mut t, &GenCfg::SMALL, a).map_err(|e| Violation::new(e.0))?;
+    let pb = F::gen_of_type(&mut t, &GenCfg::SMALL, b).map_err(|e| Violation::new(e.0))?;
+    let pkts = vec![pa.clone(), pb.clone(), pa, pb];
+    ctx.label("pair");
+    let sched: [u16; 12] = [0xF000, 0x3000, 0x9000, 0x6000, 0xC000, 0x1000, 0xA000, 0x5000, 0xE000, 0x2000, 0x8000, 0x4000];
+    let mut st = Tape::new(&sched);
+    check_sequence::<F>(pkts, false, &mut st, ctx)
+}
+
+pub const SUB_P3: Sub = Sub { name: "c08.pairs.v3", f: pair_sequence::<V3> };
+pub const SUB_P5: Sub = Sub { name: "c08.pairs.v5", f: pair_sequence::<V5> };
 pub const SUB_Z3: Sub = Sub { name: "c08.sized.v3", f: sized_sequence::<V3> };
 pub const SUB_Z5: Sub = Sub { name: "c08.sized.v5", f: sized_sequence::<V5> };
 pub const SUB_V3: Sub = Sub { name: "c08.sequence.v3", f: sequence::<V3> };
 pub const SUB_V5: Sub = Sub { name: "c08.sequence.v5", f: sequence::<V5> };
 
 pub fn subs() -> Vec<Sub> {
-    vec![SUB_V3, SUB_V5, SUB_Z3, SUB_Z5]
+    vec![SUB_V3, SUB_V5, SUB_Z3, SUB_Z5, SUB_P3, SUB_P5]
 }
 
 pub fn run(env: &mut Env) -> RunResult {
@@ -231,6 +248,12 @@ pub fn run(env: &mut Env) -> RunResult {
     let z = sizes.clone();
     env.run_enum(SUB_Z3, k, false, move |i| z[i as usize].clone())?;
     env.run_enum(SUB_Z5, k, false, move |i| sizes[i as usize].clone())?;
+    // every ordered pair of packet types, with minimal and with generated contents
+    let seeds = env.tier.sel(4u64, 24u64);
+    let n3 = (V3::NTYPES * V3::NTYPES) as u64 * seeds;
+    env.run_enum(SUB_P3, n3, true, move |i| Input::Nums(vec![(i / seeds) / V3::NTYPES as u64, (i / seeds) % V3::NTYPES as u64, i % seeds]))?;
+    let n5 = (V5::NTYPES * V5::NTYPES) as u64 * seeds;
+    env.run_enum(SUB_P5, n5, true, move |i| Input::Nums(vec![(i / seeds) / V5::NTYPES as u64, (i / seeds) % V5::NTYPES as u64, i % seeds]))?;
     env.require("c08.sized.v3", "contains-4-byte-header");
     env.require("c08.sized.v5", "contains-4-byte-header");
     for s in ["c08.sequence.v3", "c08.sequence.v5"] {
